@@ -16,7 +16,7 @@ import numpy as np
 
 from sim import datagen
 from sim.canon import EventLog, canon, field_hashes, h_array, h_obj
-from sim.seams import FaultPlan, NumProxy, SimCrash, SimFS, exc_for_site
+from sim.seams import FaultPlan, GlobalStateGuard, NumProxy, SimCrash, SimFS, exc_for_site
 
 PROPERTY = "C15"
 CHUNK = 4
@@ -82,6 +82,10 @@ def init_worker():
         return orig_tick(site, detail)
 
     plan.tick = tick
+    import pyoma2.algorithms  # noqa: F401  (everything imported before the pristine state is captured)
+    import pyoma2.setup  # noqa: F401
+
+    _S["guard"] = GlobalStateGuard("pyoma2")
 
 
 def _classes():
@@ -368,12 +372,15 @@ class World:
             self.plan.reset()
             self.plan.calls = []
             ent = {"mpe": {}}
+            tok = _S["guard"].enter()  # "alone": package-level state as right after import
             try:
                 bs.add_algorithms(fresh)
                 bs.run_by_name("ref")
                 ent["exc"] = None
             except Exception as e:
                 ent["exc"] = type(e).__name__
+            finally:
+                _S["guard"].exit(tok)
             ent["calls"] = self.plan.calls
             self.plan.calls = None
             ent["alg"] = fresh
@@ -394,11 +401,14 @@ class World:
             self.plan.reset()
             self.plan.calls = []
             m = {}
+            tok = _S["guard"].enter()
             try:
                 c.mpe(**copy.deepcopy(want_mpe))
                 m["exc"] = None
             except Exception as e:
                 m["exc"] = type(e).__name__
+            finally:
+                _S["guard"].exit(tok)
             m["calls"] = self.plan.calls
             self.plan.calls = None
             m["fields"] = field_hashes(c.result) if c.result is not None else None
@@ -823,18 +833,6 @@ def _do_run(wd, op, step, before):
     else:
         ai = None
         targets = _expect_order(wd, si)
-    # what must happen, from isolated execution
-    exp = {}
-    for i in targets:
-        st = wd.st[i]
-        if not st.has_params:
-            exp[i] = ("gate", None)
-        else:
-            ent = wd.reference(i)
-            if ent["data_mutated"]:
-                wd.violate("iso.data_mutated", step, f"{w['algs'][i]['cls']}.run() alone in a fresh setup modified the bound data", i)
-                return "exc"
-            exp[i] = ("exc", ent["exc"]) if ent["exc"] else ("ok", ent["fields"])
     _arm(wd, op)
     try:
         if op["op"] == "run":
@@ -846,6 +844,20 @@ def _do_run(wd, op, step, before):
         rexc = e
     fired = list(wd.plan.fired)
     after = wd.snapshot()
+    # what must have happened, from isolated execution. The reference is computed AFTER the real call so that
+    # the real call meets exactly the process state its real predecessors left (a reference computed first would
+    # repeat the same computation just before it and hide e.g. a cache keyed too coarsely).
+    exp = {}
+    for i in targets:
+        st = wd.st[i]
+        if not st.has_params:
+            exp[i] = ("gate", None)
+        else:
+            ent = wd.reference(i)
+            if ent["data_mutated"]:
+                wd.violate("iso.data_mutated", step, f"{w['algs'][i]['cls']}.run() alone in a fresh setup modified the bound data", i)
+                return "exc"
+            exp[i] = ("exc", ent["exc"]) if ent["exc"] else ("ok", ent["fields"])
     outcome = "ok" if rexc is None else "exc"
     if op["op"] == "run" and ai is None:
         if rexc is None:
@@ -950,11 +962,6 @@ def _do_mpe(wd, op, step, before):
         return "gate"
     st = wd.st[ai]
     name = w["algs"][ai]["name"]
-    exp = None
-    if st.ran and not st.unknown and not st.stale:
-        ent = wd.reference(ai)
-        if ent["exc"] is None:
-            exp = wd.reference(ai, want_mpe=op["args"])
     _arm(wd, op)
     try:
         setup.mpe(op["name"], **copy.deepcopy(op["args"]))
@@ -963,6 +970,11 @@ def _do_mpe(wd, op, step, before):
         rexc = e
     fired = list(wd.plan.fired)
     after = wd.snapshot()
+    exp = None
+    if st.ran and not st.unknown and not st.stale:
+        ent = wd.reference(ai)
+        if ent["exc"] is None:
+            exp = wd.reference(ai, want_mpe=op["args"])
     b, a = before["algs"][ai]["result"], after["algs"][ai]["result"]
     allow = {"params": {ai}, "result": {ai}}
     if not st.ran:
@@ -1394,12 +1406,12 @@ def _epilogue(wd, step):
             try:
                 wd.setups[si].run_by_name(wd.w["algs"][i]["name"])
             except Exception as e:
-                wd.violate("live.no_recovery", step, f"after the last fault {wd.w['algs'][i]['name']} still fails: {type(e).__name__}: {e}", i)
+                wd.violate("live.no_recovery", step, f"at the end of the history (no fault armed) {wd.w['algs'][i]['name']} still fails: {type(e).__name__}: {e}", i)
                 return
             after = wd.snapshot()
             if after["algs"][i]["result"] != ent["fields"]:
                 wd.violate("live.no_recovery", step,
-                           f"after the last fault a clean run of {wd.w['algs'][i]['name']} differs from the isolated run in "
+                           f"at the end of the history (no fault armed) a clean run of {wd.w['algs'][i]['name']} differs from the isolated run in "
                            f"{diff_fields(after['algs'][i]['result'], ent['fields'])}", i)
                 return
             wd.check_isolation(before, after, step, {"result": {i}})
